@@ -30,11 +30,17 @@ AUTHERR = "msmart.lan.AuthenticationError"
 BUDGETS = [1, 2, 3, 4]
 
 
-def find_loop(fn, pred):
-    for n in ast.walk(fn.node):
-        if isinstance(n, ast.While) and any(isinstance(c, ast.Call) and pred(c) for c in ast.walk(n)):
-            return n
-    return None
+def find_loop(fn, pred, prog=None):
+    """Compatibility wrapper: the loop may live in fn or in a helper a refactoring extracted from it."""
+    from ..helpers import find_loop as fl
+    if prog is None:
+        for n in ast.walk(fn.node):
+            if isinstance(n, ast.While) and any(isinstance(c, ast.Call) and pred(c) for c in ast.walk(n)):
+                return n
+        return None
+    loop, owner = fl(prog, fn, pred)
+    find_loop.owner = owner
+    return loop
 
 
 def counter_names(loop):
@@ -69,7 +75,8 @@ def run(ctx):
     send = ctx.fn(f"{LAN}.send")
     file = send.module.rel
     # ---------------------------------------------------------------- C08.a / C08.b send loop
-    loop = find_loop(send, lambda c: attr_call(c, "_protocol", "write"))
+    loop = find_loop(send, lambda c: attr_call(c, "_protocol", "write"), prog)
+    send_owner = getattr(find_loop, "owner", None) or send
     if loop is None:
         ctx.violation("C08.a", send.qual, "LAN.send has no loop that transmits the request", file=file, construct="retry loop")
         return
@@ -89,7 +96,7 @@ def run(ctx):
             return ("oracle", "read", OUT)
         return None
     for R in BUDGETS:
-        ex = Explorer(prog, send, classify, {ctr: R})
+        ex = Explorer(prog, send_owner, classify, {ctr: R})
         paths = ex.run([loop], {ctr: R}, ())
         ctx.count("budgets")
         ctx.count("paths", len(paths))
@@ -136,16 +143,21 @@ def run(ctx):
         if R == 2:
             ctx.sample({"budget": R, "paths": [repr(p) for p in paths][:12]})
     ss = summarize(prog, send)
-    wcalls = [n for n in ast.walk(loop) if isinstance(n, ast.Call) and attr_call(n, "_protocol", "write")]
+    so = summarize(prog, send_owner)
+    from ..helpers import unknown_callee
+    wcalls = [n for n in ast.walk(loop) if isinstance(n, ast.Call) and (attr_call(n, "_protocol", "write") or unknown_callee(prog, send_owner, n) is not None)]
     for w in wcalls:
-        t = ss.ta.terms_at.get(w.args[0]) if w.args else None
-        same = t is not None and not any(x[0] == "loopvar" for x in subterms(t)) and any(call_is(x, "msmart.lan._Packet.encode") for x in subterms(t))
+        t = so.ta.terms_at.get(w.args[0]) if w.args else None
+        if t is None:
+            continue
+        same = not any(x[0] == "loopvar" for x in subterms(t)) and (send_owner is not send or any(call_is(x, "msmart.lan._Packet.encode") for x in subterms(t)))
         ctx.ob("C08.a", send.qual, same, "every transmission writes the same encoded packet", func=send.qual, file=file, node=w,
                detail={"argument": show(t)[:120] if t else None}, fail="retransmissions do not write the packet encoded before the loop")
 
     # ---- authenticate loop
     auth = ctx.fn(f"{LAN}.authenticate")
-    aloop = find_loop(auth, lambda c: attr_call(c, "_protocol", "authenticate"))
+    aloop = find_loop(auth, lambda c: attr_call(c, "_protocol", "authenticate"), prog)
+    auth_owner = getattr(find_loop, "owner", None) or auth
     if aloop is None:
         ctx.violation("C08.a", auth.qual, "LAN.authenticate has no retry loop around the handshake", file=file, construct="retry loop")
     else:
@@ -159,7 +171,7 @@ def run(ctx):
                 return ("oracle", "handshake", ["TimeoutError", AUTHERR])
             return None
         for R in BUDGETS[:3]:
-            ex = Explorer(prog, auth, aclass, {an[0]: R})
+            ex = Explorer(prog, auth_owner, aclass, {an[0]: R})
             paths = ex.run([aloop], {an[0]: R}, ())
             ctx.count("budgets")
             ctx.count("paths", len(paths))
@@ -216,13 +228,13 @@ def run(ctx):
            construct="if not self.alive: raise ProtocolError", fail="write() on a closing transport no longer raises ProtocolError (data is silently dropped, the read then times out)")
     al = ctx.fn("msmart.lan._LanProtocol.alive")
     alsum = summarize(prog, al)
-    ok_alive = False
-    for pc, t, node, _st in alsum.returns:
-        if node is not None and is_const(t, True):
-            fs = atoms(pc)
-            has_none = any(f[0] == "cmp" and f[1] == "is not" and f[3] == ("const", None) and strip(f[2]) == ("attr", ("param", al.params[0]), "_transport") for f in fs)
-            has_closing = any(f[0] == "un" and f[1] == "not" and meth_is(f[2], "is_closing") for f in fs)
-            ok_alive = has_none and has_closing
+    from ..facts import true_facts
+    tf = true_facts(alsum)
+    ok_alive = bool(tf)
+    for fs in tf:
+        has_none = any(f[0] == "cmp" and f[1] == "is not" and f[3] == ("const", None) and strip(f[2]) == ("attr", ("param", al.params[0]), "_transport") for f in fs)
+        has_closing = any(f[0] == "un" and f[1] == "not" and meth_is(f[2], "is_closing") for f in fs)
+        ok_alive = ok_alive and has_none and has_closing
     ctx.ob("C08.c", al.qual, ok_alive, "alive is true only with a transport that is not closing", func=al.qual, file=file, construct="alive",
            fail="`alive` can be true for a missing or closing transport")
     # ---------------------------------------------------------------- C08.d
@@ -235,8 +247,11 @@ def run(ctx):
     for pc, t, node, _st in summarize(prog, sc).returns:
         pass
     # reconnect when not alive: must-pass-through before the first write
+    from ..helpers import term_lookup, with_helpers, contains_call
+    tl = term_lookup(prog, with_helpers(prog, send))
+
     def on_branch(test, truth, st):
-        t = ss.ta.terms_at.get(test)
+        t = tl(test)
         if t is not None:
             tt = strip(t)
             neg = False
@@ -252,19 +267,18 @@ def run(ctx):
         return []
     ea = EventAnalysis(must=True, on_stmt=on_stmt, on_branch=on_branch)
     run_events(prog, send, ea)
-    stmts_with_write = [n for n in ea.at if isinstance(n, ast.stmt) and not isinstance(n, (ast.While, ast.If, ast.Try, ast.For)) and
+    stmts_with_write = [n for n in ea.at if isinstance(n, ast.stmt) and not isinstance(n, (ast.While, ast.If, ast.Try, ast.For, ast.With, ast.AsyncWith, ast.AsyncFor)) and
                         any(isinstance(c, ast.Call) and attr_call(c, "_protocol", "write") for c in ast.walk(n))]
     for n in stmts_with_write:
         ctx.ob("C08.d", send.qual, "conn_ok" in ea.at[n], "every transmission is preceded by `_alive` being true or a fresh _connect()", func=send.qual,
                file=file, node=n, fail="send() can write without having checked the connection / reconnected: after a failed exchange the next one fails too")
     alv = ctx.fn(f"{LAN}._alive")
     asum = summarize(prog, alv)
-    ok_a = False
-    for pc, t, node, _st in asum.returns:
-        if node is not None and is_const(t, True):
-            fs = atoms(pc)
-            ok_a = any(f[0] == "cmp" and f[1] == "is not" and f[3] == ("const", None) and strip(f[2]) == ("attr", ("param", alv.params[0]), "_protocol") for f in fs) \
-                and any(strip(f) == ("attr", ("attr", ("param", alv.params[0]), "_protocol"), "alive") for f in fs)
+    tf = true_facts(asum)
+    ok_a = bool(tf)
+    for fs in tf:
+        ok_a = ok_a and any(f[0] == "cmp" and f[1] == "is not" and f[3] == ("const", None) and strip(f[2]) == ("attr", ("param", alv.params[0]), "_protocol") for f in fs) \
+            and any(strip(f) == ("attr", ("attr", ("param", alv.params[0]), "_protocol"), "alive") for f in fs)
     ctx.ob("C08.d", alv.qual, ok_a, "_alive is true only with an existing, alive protocol", func=alv.qual, file=file, construct="_alive",
            fail="_alive can be true without a protocol / with a dead one: send() would not reconnect")
     ctx.require_min("loops", 2)
